@@ -261,6 +261,242 @@ static int run_writer(int C, const std::vector<int> &h, const std::string &repla
 }
 
 // ------------------------------------------------------------------------------------------------
+// stream: a BufferWriter and a BufferReader on ONE shared buffer
+// ------------------------------------------------------------------------------------------------
+// The reader is constructed from the writer's `buffer` (shared_ptr<OwnedArray<uint8_t>>) at any point
+// of the history; the writer keeps appending, and the shared OwnedArray is shrunk (resize to size-1 /
+// to 0) or reset() while the reader is alive.  Model: the bytes currently in the buffer + the reader's
+// cursor.  "The written data" of the statement is what is in the buffer *now*:
+//   * a call with size >= 1 is accepted iff cursor + size <= current size, else it must throw
+//     (so at a cursor that lies beyond a shrunken buffer every non-empty call must throw);
+//   * end() == (cursor >= current size) after every step, writer steps included;
+//   * a size-0 call at a cursor beyond a shrunken buffer: the statement speaks of reads "extending
+//     past the written data"; an empty read extends nowhere and consumes nothing, so neither a throw
+//     nor an acceptance contradicts it - the outcome is observed, not judged; either way the cursor
+//     must not move and a returned view must be empty.
+// A call the model rejects gets a null destination (read() documents that as "skip"): accepting it is
+// already the violation, and an out-of-bounds memcpy would only add a process restart.  A call the
+// model accepts gets a heap destination of exactly `size` bytes and the delivered bytes are compared.
+enum SOp
+{
+  SO_WRITE0,
+  SO_WRITE1,
+  SO_WRITE2,
+  SO_ATTACH,
+  SO_READ,              // + size index 0..5
+  SO_VIEW = SO_READ + 6,
+  SO_SHRINK1 = SO_VIEW + 6,
+  SO_RESIZE0,
+  SO_RESET,
+  SO_COUNT
+};
+static const char *SSZ[6] = {"0", "1", "2", "remaining", "remaining+1", "SIZE_MAX"};
+
+static std::string stream_opname(int op)
+{
+  if (op <= SO_WRITE2)
+    return "writer.write(" + std::to_string(op) + " bytes)";
+  if (op == SO_ATTACH)
+    return "reader = BufferReader(writer.buffer)";
+  if (op < SO_VIEW)
+    return std::string("reader.read(") + SSZ[op - SO_READ] + ")";
+  if (op < SO_SHRINK1)
+    return std::string("reader.getView<uint8_t>(") + SSZ[op - SO_VIEW] + ")";
+  if (op == SO_SHRINK1)
+    return "writer.buffer->resize(size-1)";
+  if (op == SO_RESIZE0)
+    return "writer.buffer->resize(0)";
+  return "writer.buffer->reset()";
+}
+static std::string stream_opclass(int op)
+{
+  if (op <= SO_WRITE2)
+    return "BufferWriter::write";
+  if (op == SO_ATTACH)
+    return "BufferReader()";
+  if (op < SO_VIEW)
+    return std::string("BufferReader::read|size ") + SSZ[op - SO_READ];
+  if (op < SO_SHRINK1)
+    return std::string("BufferReader::getView|size ") + SSZ[op - SO_VIEW];
+  return "shared buffer shrunk/reset";
+}
+
+// crash signature context: the call and the model-state class it is made in (sizes only; from the history)
+static std::string stream_crash_ctx(const std::vector<int> &h)
+{
+  if (h.empty())
+    return "BufferWriter|crash in setup";
+  size_t n = 0, cur = 0;
+  bool attached = false;
+  for (size_t i = 0; i + 1 < h.size(); i++) {
+    const int op = h[i];
+    if (op <= SO_WRITE2)
+      n += (size_t)op;
+    else if (op == SO_ATTACH) {
+      attached = true;
+      cur = 0;
+    } else if (op == SO_SHRINK1)
+      n -= n ? 1 : 0;
+    else if (op >= SO_RESIZE0)
+      n = 0;
+    else if (attached) {
+      const int k = op >= SO_VIEW ? op - SO_VIEW : op - SO_READ;
+      const size_t rem = cur > n ? 0 : n - cur;
+      const size_t sz = k == 0 ? 0 : k == 1 ? 1 : k == 2 ? 2 : k == 3 ? rem : k == 4 ? rem + 1 : SMAX;
+      if (cur <= n && sz <= rem)
+        cur += sz;
+    }
+  }
+  const int op = h.back();
+  if (op >= SO_READ && op < SO_SHRINK1)
+    return std::string(op >= SO_VIEW ? "BufferReader::getView" : "BufferReader::read") + "|crash|" + (cur > n ? "cursor beyond a shrunken buffer" : "cursor within the buffer");
+  return stream_opclass(op) + "|crash";
+}
+
+static int run_stream(const std::vector<int> &h, const std::string &replay, bool verbose)
+{
+  sq::stat("states");
+  sq::stat("traces");
+  sq::stat("max_depth", (long long)h.size());
+  BufferWriter bw;
+  std::unique_ptr<BufferReader> r;
+  std::vector<uint8_t> bytes;  // model: what is in the buffer now
+  size_t cur = 0;              // model cursor
+  bool appended = false, shrunk = false;  // since the reader was attached
+  unsigned next = 1;
+  uint64_t digest = 1469598103934665603ull;
+  for (size_t step = 0; step < h.size(); step++) {
+    const int op = h[step];
+    const bool last = step + 1 == h.size();
+    sq::stat("transitions");
+    std::string fn = "BufferWriter", what, why, szcls = "-";
+    bool threw = false;
+    if (op <= SO_WRITE2) {
+      uint8_t src[2];
+      for (int i = 0; i < op; i++) {
+        src[i] = (uint8_t)(next++ * 41u + 5u);
+        bytes.push_back(src[i]);
+      }
+      bw.write(src, (size_t)op);
+      if (op)
+        appended = true;
+    } else if (op == SO_ATTACH) {
+      std::shared_ptr<AbstractArray<uint8_t>> b = bw.buffer;
+      r.reset(new BufferReader(b));
+      cur = 0;
+      appended = shrunk = false;
+    } else if (op >= SO_SHRINK1) {
+      if (op == SO_SHRINK1) {
+        if (bytes.empty())
+          return sq::H_DISABLED;
+        bytes.pop_back();
+        bw.buffer->resize(bytes.size(), 0);
+      } else if (op == SO_RESIZE0) {
+        if (bytes.empty())
+          return sq::H_DISABLED;
+        bytes.clear();
+        bw.buffer->resize(0, 0);
+      } else {
+        bytes.clear();
+        bw.buffer->reset();
+      }
+      shrunk = true;
+    } else {
+      if (!r)
+        return sq::H_DISABLED;
+      const bool is_view = op >= SO_VIEW;
+      fn = is_view ? "BufferReader::getView" : "BufferReader::read";
+      const int k = is_view ? op - SO_VIEW : op - SO_READ;
+      const bool beyond = cur > bytes.size();
+      const size_t remaining = beyond ? 0 : bytes.size() - cur;
+      const size_t sz = k == 0 ? 0 : k == 1 ? 1 : k == 2 ? 2 : k == 3 ? remaining : k == 4 ? remaining + 1 : SMAX;
+      const bool fits = !beyond && sz <= remaining;
+      const bool unspecified = beyond && sz == 0;
+      szcls = sz == 0 ? "size 0" : fits ? (sz == remaining ? "size == remaining" : "size < remaining") : sz == SMAX ? "size SIZE_MAX" : "size > remaining";
+      std::unique_ptr<uint8_t[]> dst;
+      std::shared_ptr<ArrayView<uint8_t>> view;
+      try {
+        if (is_view)
+          view = r->getView<uint8_t>(sz);
+        else {
+          uint8_t *mem = nullptr;
+          if (fits) {
+            dst.reset(new uint8_t[sz]);
+            mem = dst.get();
+            memset(mem, 0x5c, sz);
+          }
+          r->read(mem, sz);
+        }
+      } catch (const std::exception &) {
+        threw = true;
+      }
+      if (unspecified) {
+        if (!threw && is_view && view->size() != 0)
+          what = why = "a view of size 0 is not empty";
+      } else if (fits) {
+        if (threw)
+          what = why = "threw although cursor + size <= current size";
+        else if (is_view) {
+          if (view->size() != sz)
+            what = why = "view size differs";
+          else if (sz && view->data() != bw.buffer->begin() + cur)
+            what = why = "view does not start at the cursor";
+          else if (sz && memcmp(view->data(), bytes.data() + cur, sz) != 0)
+            what = why = "view bytes differ from the buffer contents";
+        } else if (sz && memcmp(dst.get(), bytes.data() + cur, sz) != 0)
+          what = why = "bytes delivered differ from buffer[cursor, cursor+size)";
+        if (why.empty())
+          cur += sz;
+      } else if (!threw)
+        what = why = "accepted a call that extends past the data currently in the buffer";
+      if (why.empty() && r->cursor != cur) {
+        what = (fits && !threw) ? "cursor wrong after an accepted call" : "cursor moved by a rejected or empty call";
+        why = what + ": " + std::to_string(r->cursor) + " want " + std::to_string(cur);
+      }
+      if (verbose)
+        printf("op %zu: %s = size %zu at cursor %zu of %zu: %s%s\n", step, stream_opname(op).c_str(), sz, cur - ((fits && !threw && why.empty()) ? sz : 0), bytes.size(), threw ? "threw" : "returned",
+            unspecified ? " (empty call beyond the data: not judged)" : "");
+    }
+    if (verbose && (op <= SO_ATTACH || op >= SO_SHRINK1))
+      printf("op %zu: %s -> buffer holds %zu bytes\n", step, stream_opname(op).c_str(), bytes.size());
+    // the buffer itself
+    if (why.empty() && (bw.buffer->size() != bytes.size() || (!bytes.empty() && memcmp(bw.buffer->begin(), bytes.data(), bytes.size()) != 0))) {
+      fn = "BufferWriter";
+      what = "buffer contents differ from the bytes written";
+      why = what + ": size " + std::to_string(bw.buffer->size()) + " want " + std::to_string(bytes.size());
+    }
+    // end() after every step
+    bool e = false;
+    if (why.empty() && r) {
+      e = r->end();
+      const bool want = cur >= bytes.size();
+      if (verbose)
+        printf("        end() = %s want %s (cursor %zu, %zu bytes in the buffer)\n", e ? "true" : "false", want ? "true" : "false", cur, bytes.size());
+      if (e != want) {
+        fn = "BufferReader::end";
+        what = e ? "true although unread bytes are in the buffer" : "false although the cursor is at or beyond the end of the data";
+        why = what + ": cursor " + std::to_string(cur) + ", " + std::to_string(bytes.size()) + " bytes in the buffer";
+      }
+    }
+    if (last) {
+      uint64_t k[6] = {(uint64_t)op, (uint64_t)threw, (uint64_t)cur, (uint64_t)bytes.size(), (uint64_t)(r ? 1 : 0), (uint64_t)e};
+      digest = vr::fnv(k, sizeof k, digest);
+      sq::outcome(digest);
+      if (h.size() >= 4 && vr::S().samples.size() < 6 && (h[0] + 3 * h[1] + h[2]) % 17 == 5 && r)
+        sq::sample(replay + " = " + stream_opname(h[0]) + "; " + stream_opname(h[1]) + "; " + stream_opname(h[2]) + "; " + stream_opname(h[3]) + (h.size() > 4 ? "; ..." : ""));
+    }
+    if (!why.empty()) {
+      const char *bufcls = !r ? "no reader" : cur > bytes.size() ? "cursor beyond a shrunken buffer" : shrunk ? "buffer shrunk/reset after the reader was attached" : appended ? "data appended after the reader was attached" : "buffer unchanged since the reader was attached";
+      if (verbose)
+        printf("        -> %s\n", why.c_str());
+      sq::viol(fn + "|" + what + "|" + szcls + "|" + bufcls, replay, "after " + stream_opname(op) + ": " + why + " (cursor " + std::to_string(cur) + ", " + std::to_string(bytes.size()) + " bytes in the buffer)");
+      return sq::H_VIOL;
+    }
+  }
+  return sq::H_OK;
+}
+
+// ------------------------------------------------------------------------------------------------
 int main(int argc, char **argv)
 {
   vr::init(argc, argv);
@@ -271,6 +507,18 @@ int main(int argc, char **argv)
   if (vr::replaying()) {
     // reader/N3:4.12   fixedwriter/C3:3
     std::string r = vr::S().replay;
+    if (r.compare(0, 7, "stream:") == 0) {
+      std::vector<int> hs = sq::parse_ops(r.substr(7));
+      for (int x : hs)
+        if (x < 0 || x >= SO_COUNT) {
+          printf("bad op index %d\n", x);
+          return 2;
+        }
+      int res = run_stream(hs, r, true);
+      printf("result: %s\n", res == sq::H_OK ? "ok" : res == sq::H_DISABLED ? "history not enabled" : "VIOLATION");
+      vr::flush();
+      return vr::S().viols.empty() ? 0 : 1;
+    }
     size_t sl = r.find('/'), c = r.find(':');
     std::string p = r.substr(0, sl);
     int n = atoi(r.substr(sl + 2, c - sl - 2).c_str());
@@ -286,6 +534,15 @@ int main(int argc, char **argv)
     return vr::S().viols.empty() ? 0 : 1;
   }
   sq::make_scratch();
+  if (part == "stream") {
+    const int depth = vr::thorough() ? 6 : 5;
+    sq::explore_tree(
+        "stream", SO_COUNT, depth, 64, [](const std::vector<int> &h, const std::string &rp) { return run_stream(h, rp, false); },
+        [](const std::vector<int> &h) { return stream_crash_ctx(h); });
+    sq::remove_scratch();
+    vr::note("stream: alphabet " + std::to_string((int)SO_COUNT) + ", depth " + std::to_string(depth) + "; a history is not extended after a violation");
+    return vr::finish();
+  }
   const bool reader = part == "reader";
   const int depth = reader ? (vr::thorough() ? 5 : 4) : (vr::thorough() ? 6 : 4);
   const int A = reader ? 14 : 8;
